@@ -259,6 +259,8 @@ def mut_ops():
                     out.append(['add', ep, m, kind, once])
             out.append(['replace', ep, m, 'result', False, 0])
             out.append(['replace', ep, m, 'error', True, 1])
+            out.append(['replace', ep, m, 'callback', False, 2])
+            out.append(['replace', ep, m, 'result', True, 0])
             out.append(['remove', ep, m])
         out.append(['remove', ep, None])
     out.append(['reset'])
